@@ -17,7 +17,7 @@ pub fn deadline_exceeded(deadline: Option<Instant>) -> bool {
         Some(deadline) => {
             #[cfg(similar_verif)]
             {
-                if let Some(expired) = verif_clock::probe() {
+                if let Some(expired) = verif_clock::probe(deadline) {
                     return expired;
                 }
             }
@@ -48,18 +48,20 @@ pub fn duration_to_deadline(add: Duration) -> Option<Instant> {
 /// made while a deadline is present asks the oracle instead of the real clock.
 #[cfg(similar_verif)]
 pub mod verif_clock {
+    use super::Instant;
     use std::cell::RefCell;
 
     thread_local! {
-        static ORACLE: RefCell<Option<Box<dyn FnMut() -> bool>>> = RefCell::new(None);
+        static ORACLE: RefCell<Option<Box<dyn FnMut(Instant) -> bool>>> = RefCell::new(None);
     }
 
     /// Installs (or with `None` removes) the oracle of the current thread.
-    pub fn install(oracle: Option<Box<dyn FnMut() -> bool>>) {
+    /// The oracle is told which deadline the probe is about.
+    pub fn install(oracle: Option<Box<dyn FnMut(Instant) -> bool>>) {
         ORACLE.with(|o| *o.borrow_mut() = oracle);
     }
 
-    pub(crate) fn probe() -> Option<bool> {
-        ORACLE.with(|o| o.borrow_mut().as_mut().map(|f| f()))
+    pub(crate) fn probe(deadline: Instant) -> Option<bool> {
+        ORACLE.with(|o| o.borrow_mut().as_mut().map(|f| f(deadline)))
     }
 }
